@@ -179,6 +179,12 @@ func (f *FieldCopyFromGenerator) genPrimitive() *j.Statement {
 				)
 				g.Id("obj." + f.Name).Op("=").Id("t")
 			})
+			// A null or unknown value must still reset what an already allocated parent holds
+			g.If(j.Id("v.Null || v.Unknown")).Block(
+				j.If(j.Id("obj." + f.ParentIsOptionalEmbedFieldName).Op("!=").Nil()).Block(
+					j.Id("obj." + f.Name).Op("=").Id("t"),
+				),
+			)
 			return
 		}
 
